@@ -542,7 +542,10 @@ def stepCore (e : Env) (line : String) : Env × String :=
             match corrParts f g lo hi lag pre with
             | .ok (c, vf, vg) =>
               -- without a finite piece on which both are defined there is no deviation to divide by
-              if vf.isNone || vg.isNone then (e, "ERR Undefined")
+              -- (nor, when the product has no finite defined piece - possible only over an unbounded window, where
+              -- the canonical product can merge its finite pieces away - a covariance: the library then answers NaN on
+              -- numeric domains and raises TypeError on datetime domains)
+              if vf.isNone || vg.isNone || c.isNone then (e, "ERR Undefined")
               else (e, s!"{showVal c} {showVal vf} {showVal vg}")
             | .error err => (e, showErr err)
         | _, _, _ => bad
